@@ -21,6 +21,7 @@ DOC = {
         'C01.R4': 'hashing task: inode groups keyed by file_info.id; FileId equality is the derived one over exactly {device, inode}',
         'C01.R5': 'hash_transformed: the length bound handed to stream_hash has no data dependence on chunk.len (the raw file length)',
         'C01.R6': 'fields of FileInfo written through the &mut handed to hash_fn and read by the group key are assigned on every HashedFileInfo the task sends',
+        'C01.R11': 'a file is identified by its whole FileId: the inode number is never read without the device (derived Eq/Ord/Hash of FileId, the cache key), except by the inode_id() accessor whose only user computes the read-ordering `location`; a run of \'paths of the same file\' keyed by the inode alone would give one hash to different files of two file systems mapped to one DiskDevice',
         'C01.R10': 'the chunks are cut from the length recorded by the scan, so the data are only those of the reported file if the length still holds: the three raw hashing stages hand the scanned length to the hasher with the chunk, and file_hash compares it with the length of the file it has open (fstat) and fails on a mismatch - a file that grew or shrank after the scan leaves the stage with a warning instead of being reported under its old length',
         'C01.R9': 'the report file (-o FILE) is created, empty, before the scan starts (main.rs: check_can_create_output_file), so the scan must not take it for one of the input files: scan_files filters out the path that equals config.output',
         'C01.R8': 'the suffix stage, which combines hashes with XOR, never hashes the chunk the prefix stage already hashed: its pre-filter excludes files not longer than the prefix length (a comparison of file_len with a value that group_files derives from the same prefix_len it hands to the prefix and contents stages); otherwise whole-file ^ whole-file = 0 merges all files of one length',
@@ -43,6 +44,7 @@ def run(ctx):
     r8(ctx)
     r9(ctx)
     r10(ctx)
+    r11(ctx)
     from .common import run_mandatory
     run_mandatory(ctx, 'C01')
 
@@ -647,3 +649,54 @@ def r10(ctx, rule='C01.R10'):
         n += 1
         ctx.check(good, rule, 'group::%s|chunk-carries-scanned-length' % st, (fc[0].where() if fc else hc.where()), '%s: the chunk carries fi.len' % st,
                   '%s hands the chunk to the hasher without the scanned file length, so a changed length cannot be noticed' % st)
+
+
+def file_id_field_reads(b):
+    """names among {inode, device} that the body reads as fields of a place"""
+    out = {}
+    for blk in b.blocks:
+        if blk['cleanup']:
+            continue
+        for st in blk['stmts']:
+            for pl in rvalue_places(st['rv']):
+                for f in place_fields(pl):
+                    if f in ('inode', 'device'):
+                        out.setdefault(f, st['line'])
+        t = blk['term']
+        for o in (t.get('args') or []):
+            pl = op_place(o)
+            if pl is not None:
+                for f in place_fields(pl):
+                    if f in ('inode', 'device'):
+                        out.setdefault(f, t['line'])
+    return out
+
+
+def r11(ctx):
+    """The identity of a file is the whole FileId (device AND inode)."""
+    rule = 'C01.R11'
+    lib = ctx.lib
+    n = 0
+    for p_, b in sorted(lib.bodies.items()):
+        if re.search(r'(^|::|<)tests?(::|$)', p_) or b.kind in ('const', 'static', 'promoted'):
+            continue
+        rd = file_id_field_reads(b)
+        if 'inode' not in rd:
+            continue
+        n += 1
+        if p_.endswith('::inode_id'):
+            ctx.ok(rule, p_ + '|inode-accessor', b.where(), 'the accessor that feeds the physical location of the file (ordering of the reads only)')
+            continue
+        ctx.check('device' in rd, rule, p_ + '|inode-with-device', b.where(rd['inode']), 'the inode number is used together with the device',
+                  'the inode number of a FileId is used without its device: inode numbers are unique only within one file system, and the files handled together (one DiskDevice of fclones = '
+                  'a mount point known to sysinfo and everything mounted below it: tmpfs, bind mounts, btrfs subvolumes, FUSE) come from several - two different files with the same '
+                  'inode number are then taken for one file, only one of them is hashed and both are reported with its hash')
+    ctx.floor(rule, 'bodies reading FileId.inode', n, 7)
+    users = [(p_, c) for p_, b in sorted(lib.bodies.items()) if not re.search(r'(^|::|<)tests?(::|$)', p_) for c in b.calls(r'::inode_id$')]
+    for p_, c in users:
+        b = lib.body(p_)
+        locs = [st for blk in b.blocks for st in blk['stmts'] if st['rv']['k'] == 'agg' and agg_field(st, 'location') is not None
+                and any(k.bb == c.bb for k in backslice(b, [agg_field(st, 'location')]).calls)]
+        ctx.check(bool(locs), rule, p_ + '|inode_id-feeds-location', c.where(), 'inode_id() is only used for the `location` (read ordering) of the file',
+                  'inode_id() - the inode number without the device - is used here for something else than the read-ordering `location`')
+    ctx.floor(rule, 'inode_id() users', len(users), 1)
